@@ -923,4 +923,17 @@ Section GenEqLoops.
   Lemma ScaleTwistExtrude3D_ctor : forall (s : Obj2 O) height twist scale,
     option_map obj3_of (sdf_ScaleTwistExtrude3D (ev2 s) (bb2 s) height twist scale) = k_scaletwistextrude s height twist scale.
   Proof. intros. unfold sdf_ScaleTwistExtrude3D, k_scaletwistextrude. ctor_eq TRANSL_ScaleTwistExtrude3D_ctor. Qed.
+  (* ---- mutators (SetMin / SetMax / SetExtrude): the new values of the fields they assign.  In the
+     model the blend is the MinK / MaxK argument of k_xxx; UnionSDF2.SetMin also sets the flag that
+     switches the box pruning off (min_is_blend) *)
+  Lemma UnionSDF2_SetMin_eq : forall mk : MinK O, mk <> MinDef ->
+    sdf_UnionSDF2_SetMin (min_apply mk) = (min_apply mk, min_is_blend mk).
+  Proof. intros mk H. destruct mk; [contradiction | | | ]; same_as TRANSL_UnionSDF2_SetMin. Qed.
+  Lemma SetMin_SetMax_eq : forall f : T -> T -> T,
+    sdf_IntersectionSDF2_SetMax f = f /\ sdf_DifferenceSDF2_SetMax f = f /\ sdf_ArraySDF2_SetMin f = f /\
+    sdf_RotateUnionSDF2_SetMin f = f /\ sdf_UnionSDF3_SetMin f = f /\ sdf_DifferenceSDF3_SetMax f = f /\
+    sdf_IntersectionSDF3_SetMax f = f /\ sdf_ArraySDF3_SetMin f = f /\ sdf_RotateUnionSDF3_SetMin f = f.
+  Proof. intros. repeat split; same_as TRANSL_SetMin_SetMax. Qed.
+  Lemma SetExtrude_eq : forall f : V3 -> V2, sdf_ExtrudeSDF3_SetExtrude f = f.
+  Proof. same_as TRANSL_SetExtrude. Qed.
 End GenEqLoops.
